@@ -108,12 +108,37 @@ def h_tables(na, nb, b_scalar, two, default, jfirst = False):
         c.check('inputs-unchanged', all(A[k][i] is ac[k][i] for k in ac for i in range(na)))
     return h
 
-def h_cache(na, nd, ne):
+def h_sigdefault(na, nb):
+    """f declares a default for b in its signature, the caller names only a in `defaults`: a is outer-joined, b (a table) stays inner-joined"""
+    def h(c):
+        from pyg_base import perdictable
+        calls = []
+        def f(a, b = 5):
+            calls.append((a, b)); return 1000 * a + b
+        p = perdictable(f, on = 'k', defaults = dict(a = 7))
+        A, ac = table(c, 'a', na); B, bc = table(c, 'b', nb)
+        r = p(a = A, b = B)
+        want = []
+        for key in keys_of(bc, False):
+            av = lookup(ac, 'a', key, False); bv = lookup(bc, 'b', key, False)
+            want.append((key, 1000 * (7 if av is None else av) + bv))
+        if not want:
+            c.check('no-key-in-the-inner-joined-table-gives-no-rows', r is None or len(r) == 0); return
+        rows = result_rows(r, False); order = sort_keys([k for k, v in want])
+        c.check('one-row-per-key-of-the-inner-joined-input-only', len(rows) == len(want))
+        c.check('sorted-by-key', X.And([keq(rows[i][0], order[i]) for i in range(len(rows))]))
+        for key, val in rows:
+            exp = [v for k, v in want if keq(k, key)]
+            c.check('value-is-f-with-the-named-default-for-a', len(exp) == 1 and val == exp[0])
+        c.check('f-called-exactly-once-per-row', len(calls) == len(want))
+    return h
+
+def h_cache(na, nd, ne, oii = True):
     """previously computed values with expiries: past -> kept and f not called; everything else recomputed exactly once"""
     def h(c):
         from pyg_base import perdictable, dictable, dt
         td = shims.shim_timedelta if c.mode == 'sym' else _rdt.timedelta
-        calls = []; p = perdictable(mkf(calls), on = 'k')
+        calls = []; p = perdictable(mkf(calls), on = 'k') if oii else perdictable(mkf(calls), on = 'k', output_is_input = False)
         A, ac = table(c, 'a', na); bsc = c.int('b', -9, 9)
         D, dc = table(c, 'data', nd)                       # cached values: keys may be a subset / superset of a's keys, in any order
         today = dt(0)
@@ -160,6 +185,11 @@ def obligations(tier):
         obs.append(Ob('tables.%d.scalar-b' % na, h_tables(na, 0, True, False, False), setup = setup, budget_s = 300, desc = 'a table (%d rows), b scalar (broadcast)' % na))
     for na, nb in [(1, 1), (2, 1)] + ([] if q else [(2, 2)]):
         obs.append(Ob('two-keys.%dx%d' % (na, nb), h_tables(na, nb, False, True, False), setup = setup, budget_s = 300 if q else 1500, desc = 'two key columns, %d x %d rows' % (na, nb)))
+    for na, nb in [(1, 1), (2, 1), (1, 2)]:
+        obs.append(Ob('signature-default.%dx%d' % (na, nb), h_sigdefault(na, nb), setup = setup, budget_s = 300, desc = 'f(a, b = 5) lifted with defaults = dict(a = 7): only a is outer-joined (a %d rows, b %d rows)' % (na, nb)))
+    for na, nd, ne in [(1, 1, 1), (2, 2, 1)]:
+        for i, k0 in enumerate(['past', 'future', 'none']):
+            obs.append(Ob('cache.output-not-input.%d.%d.%d.%s' % (na, nd, ne, k0), h_cache(na, nd, ne, False), setup = setup, pins = {'e.kind0': i}, budget_s = 400, desc = 'the same with output_is_input = False (first expiry %s)' % k0))
     for na, nb in [(2, 1), (2, 2)]:
         obs.append(Ob('two-keys.j-first.%dx%d' % (na, nb), h_tables(na, nb, False, True, False, True), setup = setup, budget_s = 300 if q else 1500, desc = 'two key columns, the first table lists them in the reverse of `on`, %d x %d rows: rows sorted by `on`' % (na, nb)))
     for na, nd, ne in [(1, 0, 0), (1, 1, 1), (1, 2, 1), (2, 1, 1), (2, 2, 1)] + ([] if q else [(2, 1, 2), (2, 2, 2)]):
